@@ -7,7 +7,7 @@
         Then IndexLevel.from_tree / from_level_data (index_level.py:60-124) turns the tree into
         levels: every innermost list becomes an Index (duplicates -> ErrorInitIndexNonUnique), every
         dict an Index over its keys plus one target level per key, each with the offset of its first
-        leaf RELATIVE to its parent.  IndexLevel.leaf_loc_to_iloc (index_level.py:446-475) adds the
+        leaf RELATIVE to its parent.  IndexLevel.leaf_loc_to_iloc (index_level.py:449-478) adds the
         offsets along the path of a key.
    S_*: the hierarchical index over the label sequence ls IS the list ls; accepted iff all labels have
         the same depth >= 2, are pairwise distinct and are "tree ordered": labels sharing a proper
@@ -185,8 +185,9 @@ Section Tree.
 
   Definition M_leaf_loc_to_iloc (lv : level) (key : label) : res Z := leaf_loc key lv 0.
 
-  (* IndexLevel.__contains__ (index_level.py:426-444): walks the components; at a leaf level it answers
-     True as soon as the component is a leaf label -- WITHOUT checking that the key is exhausted *)
+  (* IndexLevel.__contains__ (index_level.py:426-447): walks the components; at a leaf level it answers
+     True when the component is a leaf label and -- since fix 248eb88, re-read from the source as
+     gen_hier_contains_checks_exhausted -- the key ends there *)
   Fixpoint lv_contains (key : label) (lv : level) {struct key} : bool :=
     match key with
     | [] => false
